@@ -45,6 +45,13 @@ CHECKS = {
  "C02": dict(category="exploration", technique="exhaustive walk of the configuration lattice table{8} x align x 7/8-bit x -I/-B x %pointer/%array x {C, reentrant, C++, c99} x {in-code, --tables-file} (768 points) for a corpus of rule sets, each supported point compiled and run against the reference token stream (inputs of length <= L + transition cover); refusal table for documented unsupported combinations; 120-600 sizable rule sets through each table packer",
    text="Every lattice point either is refused by flex with a message for a documented reason (full/fast tables with -I, C++ with -CF) or must compile and reproduce, for a corpus of 8-9 rule sets (keywords with back-up, anchors, fixed and variable trailing context, classes, NUL, high bytes, a C-like lexer), the reference token stream on every input up to length L plus the transition cover of each rule set; 27 refusal/acceptance probes (variable trailing context or REJECT with -Cf/-CF/-f/-F, -Cf with -Cm/-CF/-I, -l and -+ conflicts); and 120 (600 thorough) deterministic C-like rule sets, each alone in its own specification, through -CFe/-CF/-Cfe/-Cem/-Cm with their transition covers, to exercise the table packers on sparse states.",
    note="Differential against the reference, so a defect common to all representations is still seen. Serialized tables only for C scanners (the manual documents them for C); c99 points accepted when refused with a message; operations (yyless, yymore, REJECT) across APIs are C07/C08's job.", design="2/C02"),
+
+ "C13": dict(category="exploration", technique="the bounded-exhaustive executions of the other harnesses (inputs x read schedules x operation and buffer histories x APIs x table families) re-run under AddressSanitizer + UndefinedBehaviorSanitizer with an allocation ledger (exact-size blocks, realloc always moves, live-set accounting); valgrind memcheck on a subset",
+   text="About 70 scenarios per run (C08 operation histories, C03 read schedules and sources, C04 NUL patterns in all table families, REJECT, start-condition stack with pre-filled depths, buffer histories and nesting to depth 37, C++ class) are repeated with sanitizers; the ledger checks after every normally completed execution that, once the user's own buffers are deleted and yylex_destroy has run, no block is left, and that every pointer given to yyfree/yyrealloc is live; the non-reentrant scanner is destroyed and reused between all executions and must behave as fresh (any stale state shows as a token mismatch).",
+   note="Sanitizers and valgrind trusted; MSan not used (needs an instrumented libc); blocks still held when the fatal-error hook fires are not judged; the C++ class runs under ASan without the ledger.", design="2/C13"),
+ "C14": dict(category="fault_enumeration", technique="for each scenario a clean run counts the allocation requests N and read requests R; then one run per k <= N with request k failing and one run per j <= R and fault kind (EINTR, EINTR twice, read error, EINTR after a partial fread); each outcome must be the documented one",
+   text="Scenarios = {non-reentrant, reentrant, c99} x {user yyread, stdio fread, interactive getc loop, read(2)} x {plain, REJECT} x 4 inputs (including a token that forces buffer growth) x buffer sizes, under ASan with the ledger: an allocation failure must end in yylex_init's error return (ENOMEM/EINVAL) or in the fatal-error hook with a message, never in normal completion, a wrong token or a sanitizer report; EINTR must be retried with the token stream unchanged; a hard read error must reach the fatal-error hook with 'input in flex scanner failed'.",
+   note="A user-supplied yyread has no errno protocol, so read faults are injected on the scanner's own paths only; two known findings (getc path does not retry EINTR; EINTR after a partial fread leaves the error indicator set); C++ stream errors are not yet covered.", design="2/C14"),
 }
 
 NOT_YET = "check under construction in this round; will be claimed once it has run end-to-end on the unchanged tree"
